@@ -2,7 +2,7 @@ HOOKS = {
     "guard": "unic_locale_verif",
     "enable": "RUSTFLAGS='--cfg unic_locale_verif' (set by tools/check.py for every Kani and native-replay build of /repo's crates)",
     "baseline_off_cmd": "cd /repo && cargo test --workspace --no-fail-fast --offline",
-    "source_commits": ["68869d5", "ab38439", "4d0aab9"],
+    "source_commits": ["68869d5", "ab38439", "4d0aab9", "6037a55"],
     "add_only": True,
 }
 
@@ -11,6 +11,7 @@ NOTES = ("Every check rebuilds /repo's crates from the current working tree with
          "Scratch build output goes to $VERIF_SCRATCH (default /var/tmp/vp-<id>-<pid>) and is removed at exit.")
 
 NOT_APPLICABLE = {
+    "C08": "not within reach of the solver here: one minimize performs up to four maximize calls, and after the first one the language is the value of a table row (a symbolic integer), so every further lookup is a binary search of the 7143-row table with a symbolic key. Every harness over a CLDR-known language ran out of memory (16, 28 and 46 GB caps; concrete languages zh/sr/en with script and region symbolic, with and without both present); only the unknown-language case (qaa: nothing changes) verified, which is too little to claim the property. Harnesses are kept in harness/src/c08.rs and tools/registry.py for reference (DESIGN.md section 10). maximize itself, on which minimize is built, is decided under C06/C07.",
     "C16": "proc-macro expansion and compile-time diagnostics are executions of rustc against the proc_macro bridge; they cannot be linked into a Kani harness or encoded for an SMT solver, and two thirds of the statement are facts about compiler runs. The run-time lemmas the expansions rely on are decided under C17/C05 (DESIGN.md section 4 C16, section 9).",
 }
 
